@@ -75,8 +75,18 @@ let transcript st steps drain =
    so the spec prints the flat bytes and the comparison is done after canonicalisation in python *)
 let rec handle ws = match ws with
   | ["dg.decc"; chunks] ->
+      (* non-contiguous input: the model column is Datagram::decode on the chunk list (Model/ChunkedDatagram.v; empty chunks
+         dropped as h3v::ChunkBuf::new does) and prints the chunks of the payload buffer; the spec column is the RFC
+         reference decoder on the concatenation *)
+      let cs = List.filter (fun c -> c <> []) (chunks_of chunks) in
+      let m = (match dg_decode_buf cs with
+        | Ok (s, p) -> "ok " ^ string_of_n s ^ " " ^ (if p = [] then "-" else String.concat "." (List.map hex_of_bytes p))
+        | Err c -> "err " ^ string_of_n c
+        | Panic _ -> "panic") in
       let flat = String.concat "" (List.filter (fun c -> c <> "-") (String.split_on_char '.' chunks)) in
-      handle ["dg.dec"; (if flat = "" then "-" else flat)]
+      let sp = handle ["dg.dec"; (if flat = "" then "-" else flat)] in
+      let i = (try String.index sp '|' with Not_found -> 0) in
+      m ^ " | " ^ String.trim (String.sub sp (i + 1) (String.length sp - i - 1))
   | ["dg.enc"; sid; pl; steps] -> handle ["dg.enc"; sid; pl; steps; "d"]
   | ["dg.enc"; sid; pl; steps; drain] ->
       let sid = n_of_string sid in
